@@ -29,6 +29,16 @@ MODEL_DEPS = {
     "parking_lot": ("parking-lot-model", "pl-model"),
     "bytes": ("bytes-model", "bytes-model"),
 }
+# symmetric-crypto facades (toy deterministic primitives, DESIGN §2.3); enabled per spec with "symcrypto": true
+CRYPTO_DEPS = {
+    "aes": ("aes-model", "symcrypto/aes"),
+    "ctr": ("ctr-model", "symcrypto/ctr"),
+    "hmac": ("hmac-model", "symcrypto/hmac"),
+    "sha1": ("sha1-model", "symcrypto/sha1"),
+    "sha2": ("sha2-model", "symcrypto/sha2"),
+    "md5": ("md5-model", "symcrypto/md5"),
+    "aes-gcm": ("aes-gcm-model", "symcrypto/aes-gcm"),
+}
 MODEL_FEATURES = {"bytes": ["serde"]}
 
 
@@ -92,9 +102,12 @@ def module_path_for(src_rel):
 # ----------------------------------------------------------------------------------------
 # scratch preparation
 # ----------------------------------------------------------------------------------------
-def rewrite_cargo_toml(path):
+def rewrite_cargo_toml(path, symcrypto=False):
     s = open(path).read()
-    for key, (pkg, d) in MODEL_DEPS.items():
+    deps = dict(MODEL_DEPS)
+    if symcrypto:
+        deps.update(CRYPTO_DEPS)
+    for key, (pkg, d) in deps.items():
         feats = MODEL_FEATURES.get(key)
         fstr = (", features = [" + ", ".join(f'"{x}"' for x in feats) + "]") if feats else ""
         new = f'{key} = {{ package = "{pkg}", path = "{MODELS}/{d}"{fstr} }}'
@@ -116,6 +129,22 @@ def apply_rewrite(root, rw):
     if not os.path.exists(f):
         raise Inconclusive(f"anchor moved: file {rw['file']} missing")
     s = open(f).read()
+    if rw.get("mode") == "lift":
+        # copy the text between two anchors verbatim into a template appended to the file
+        # (used to re-instantiate a struct literal / method body of the current source inside a cfg(kani) helper)
+        i = s.find(rw["start"])
+        if i < 0 or s.count(rw["start"]) != 1:
+            raise Inconclusive(f"anchor moved: `{rw['start']}` occurs {s.count(rw['start'])}x in {rw['file']} (expected 1)")
+        j = s.find(rw["end"], i + len(rw["start"]))
+        if j < 0:
+            raise Inconclusive(f"anchor moved: `{rw['end']}` not found after `{rw['start']}` in {rw['file']}")
+        body = s[i + len(rw["start"]):j]
+        for a, b in rw.get("body_replace", []):
+            if a not in body:
+                raise Inconclusive(f"anchor moved: `{a}` not found in lifted text of {rw['file']}")
+            body = body.replace(a, b)
+        open(f, "a").write("\n" + rw["template"].replace("@BODY@", body).replace("@MODELS@", MODELS) + "\n")
+        return
     lo, hi = 0, len(s)
     if rw.get("within"):
         lo = s.find(rw["within"])
@@ -142,15 +171,127 @@ def apply_rewrite(root, rw):
     open(f, "w").write(s[:lo] + seg + s[hi:])
 
 
+
+def _rust_code_mask(s):
+    """mask[i] is True where s[i] is code (not inside a comment, string or char literal)."""
+    n = len(s)
+    mask = [True] * n
+    i = 0
+    while i < n:
+        c = s[i]
+        if c == "/" and i + 1 < n and s[i + 1] == "/":
+            j = s.find("\n", i)
+            j = n if j < 0 else j
+            for k in range(i, j): mask[k] = False
+            i = j
+        elif c == "/" and i + 1 < n and s[i + 1] == "*":
+            depth, j = 1, i + 2
+            while j < n and depth:
+                if s.startswith("/*", j): depth += 1; j += 2
+                elif s.startswith("*/", j): depth -= 1; j += 2
+                else: j += 1
+            for k in range(i, j): mask[k] = False
+            i = j
+        elif c == '"' or (c == "r" and re.match(r'r#*"', s[i:i + 8]) and (i == 0 or not (s[i - 1].isalnum() or s[i - 1] == "_"))) \
+                or (c == "b" and i + 1 < n and s[i + 1] == '"'):
+            if c == "r":
+                m = re.match(r'r(#*)"', s[i:])
+                close = '"' + m.group(1)
+                j = s.find(close, i + len(m.group(0)))
+                j = n if j < 0 else j + len(close)
+            else:
+                j = i + (2 if c == "b" else 1)
+                while j < n and s[j] != '"':
+                    j += 2 if s[j] == "\\" else 1
+                j += 1
+            for k in range(i, min(j, n)): mask[k] = False
+            i = j
+        elif c == "'":
+            if i + 1 < n and s[i + 1] == "\\":
+                j = s.find("'", i + 2)
+                j = i + 1 if j < 0 else j + 1
+                for k in range(i, j): mask[k] = False
+                i = j
+            elif i + 2 < n and s[i + 2] == "'":
+                for k in range(i, i + 3): mask[k] = False
+                i += 3
+            else:
+                i += 1  # lifetime
+        else:
+            i += 1
+    return mask
+
+
+def _match_brace(s, mask, open_idx):
+    depth = 0
+    for i in range(open_idx, len(s)):
+        if not mask[i]:
+            continue
+        if s[i] == "{": depth += 1
+        elif s[i] == "}":
+            depth -= 1
+            if depth == 0:
+                return i
+    return -1
+
+
+def deasync_file(root, rw):
+    """rw = {file, impl: "impl SctpInner {", keep_async: [names], pre: [[old,new],...], reason}
+    Inside every `impl ... {` block named by rw["impl"], `async fn X` becomes `fn X` (except keep_async);
+    in the whole file `.await` becomes `.vw()` (trait crate::vw::Vw: identity on values, poll-once on model futures)."""
+    f = os.path.join(root, rw["file"])
+    s = open(f).read()
+    for a, b in rw.get("pre", []):
+        if s.count(a) < 1:
+            raise Inconclusive(f"anchor moved: `{a}` not found in {rw['file']}")
+        s = s.replace(a, b)
+    mask = _rust_code_mask(s)
+    starts = [m.start() for m in re.finditer(re.escape(rw["impl"]), s) if mask[m.start()]]
+    if not starts:
+        raise Inconclusive(f"anchor moved: `{rw['impl']}` not found in {rw['file']}")
+    keep = set(rw.get("keep_async", []))
+    edits = []
+    for st in starts:
+        ob = s.index("{", st)
+        cb = _match_brace(s, mask, ob)
+        if cb < 0:
+            raise Inconclusive(f"could not match braces of `{rw['impl']}` in {rw['file']}")
+        for m in re.finditer(r"\basync\s+fn\s+(\w+)", s[ob:cb]):
+            if mask[ob + m.start()] and m.group(1) not in keep:
+                edits.append((ob + m.start(), ob + m.start() + len("async ")))
+    for a, b in sorted(edits, reverse=True):
+        s = s[:a] + s[b:].lstrip(" ") if False else s[:a] + s[b:]
+    mask = _rust_code_mask(s)
+    out, i, n = [], 0, 0
+    for m in re.finditer(r"\.\s*await\b", s):
+        if mask[m.start()]:
+            out.append(s[i:m.start()]); out.append(".vw()"); i = m.end(); n += 1
+    out.append(s[i:])
+    s = "".join(out)
+    # import the trait after the first `use` line
+    k = s.find("\nuse ")
+    if s.startswith("use "):
+        k = -1
+    s = s[:k + 1] + "#[allow(unused_imports)]\nuse crate::vw::Vw as _;\n" + s[k + 1:]
+    open(f, "w").write(s)
+    return len(edits), n
+
+
 def prepare(spec, workdir, harness_files):
     repo = os.path.join(workdir, "repo")
     os.makedirs(workdir, exist_ok=True)
     r = sh(["rsync", "-a", "--delete", "--exclude", "/target", "--exclude", "/.git", REPO + "/", repo + "/"])
     if r.returncode != 0:
         raise Inconclusive("rsync of /repo failed")
-    rewrite_cargo_toml(os.path.join(repo, "Cargo.toml"))
+    rewrite_cargo_toml(os.path.join(repo, "Cargo.toml"), bool(spec.get("symcrypto")))
+    # crate-root feature gate needed by the shared harness helpers (sequential Weak::upgrade stub names the allocator parameter)
+    apply_rewrite(repo, {"file": "src/lib.rs", "anchor": "pub mod config;", "count": 1, "mode": "before",
+                         "text": "#![cfg_attr(kani, feature(allocator_api))]\n"})
     for rw in spec.get("rewrites", []):
-        apply_rewrite(repo, rw)
+        if rw.get("mode") == "deasync":
+            deasync_file(repo, rw)
+        else:
+            apply_rewrite(repo, rw)
     # private copy of the harness sources (so that a replay can be spliced in without touching /verif)
     hroot = os.path.join(workdir, "harness")
     shutil.rmtree(hroot, ignore_errors=True)
@@ -163,7 +304,7 @@ def prepare(spec, workdir, harness_files):
         hp = os.path.join(hroot, spec["property"], inj["file"])
         modname = inj.get("module", "verif_" + spec["property"].lower())
         with open(tgt, "a") as fh:
-            fh.write(f'\n#[cfg(kani)]\n#[path = "{hp}"]\nmod {modname};\n')
+            fh.write(f'\n#[cfg(kani)]\n#[path = "{hp}"]\n{inj.get("vis","")} mod {modname};\n')
             for extra in inj.get("extra_modules", []):
                 ep = os.path.join(hroot, extra["file"])
                 fh.write(f'#[cfg(kani)]\n#[path = "{ep}"]\n{extra.get("vis","")} mod {extra["module"]};\n')
@@ -445,6 +586,7 @@ def main():
     ap.add_argument("--no-evidence", action="store_true")
     ap.add_argument("--replay", default=None, help="replay a stored counterexample natively")
     ap.add_argument("--jobs", type=int, default=int(os.environ.get("VERIF_JOBS", "0")))
+    ap.add_argument("--tmax", type=int, default=0, help="cap every harness timeout at this many seconds (development)")
     a = ap.parse_args()
     prop = a.prop.upper()
     seed = int(os.environ.get("VERIF_SEED", "0") or 0)
@@ -479,7 +621,7 @@ def main():
             h["file"] = inj["file"]
             h["file_abs_in_scratch"] = None
             harnesses.append(h)
-    sel = [h for h in harnesses if a.tier == "thorough" or h["tier"] == "quick"]
+    sel = [h for h in harnesses if h["tier"] == "quick" or (a.tier == "thorough" and h["tier"] == "thorough")]
     if a.only:
         sel = [h for h in harnesses if re.search(a.only, h["name"])]
     # seeded rotation: harnesses tagged tier=rotate:<k> run in quick when seed % k == idx
@@ -507,6 +649,8 @@ def run_property(prop, spec, sel, harnesses, workdir, a, seed, t0):
     target = seed_target(workdir)
     jobs = a.jobs or min(NCPU, len(sel))
     tmax = max(h["timeout"] for h in sel)
+    if a.tmax:
+        tmax = min(tmax, a.tmax)
     out_json = os.path.join(workdir, "kani.json")
     logf = os.path.join(workdir, "kani.log")
     log(f"{prop}: {len(sel)} harnesses, tier={a.tier}, jobs={jobs}, per-harness timeout={tmax}s, scratch={workdir}")
@@ -515,7 +659,9 @@ def run_property(prop, spec, sel, harnesses, workdir, a, seed, t0):
     logtxt = open(logf).read() if os.path.exists(logf) else ""
     if d is None:
         tail = "\n".join(logtxt.splitlines()[-40:])
-        errs = "\n".join(l for l in logtxt.splitlines() if l.startswith("error"))[:2000]
+        ll = logtxt.splitlines()
+        errs = "\n".join("\n".join(ll[i:i + 14]) for i, l in enumerate(ll) if l.startswith("error["))[:3000] or \
+            "\n".join(l for l in ll if l.startswith("error"))[:2000]
         keep_log = os.path.join(VERIF, "logs")
         os.makedirs(keep_log, exist_ok=True)
         shutil.copy(logf, os.path.join(keep_log, f"{prop}-{a.tier}-last-inconclusive.log"))
@@ -659,7 +805,7 @@ def write_evidence(prop, spec, tier, seed, per, wall, confirmed, inconclusive, k
             "wall_ms": r.get("duration_ms"),
         })
     for rw in spec.get("rewrites", []):
-        assumptions.append(f"cut/rewrite in scratch copy: {rw['file']} @ `{rw['anchor']}` -- {rw.get('reason','')}")
+        assumptions.append(f"cut/rewrite in scratch copy: {rw['file']} @ `{rw.get('anchor') or rw.get('start')}` -- {rw.get('reason','')}")
     ev = {
         "property_id": prop, "tier": tier, "seed": seed, "level": "model_checking",
         "coverage": {
